@@ -78,6 +78,11 @@ CHECKS.update({
          'An interpreter executes generated operation sequences (derive by begin_parse/to_slice/from_cell/to_builder/copy/to_cell, consume and skip on slices, store into builders incl. after end_cell, to_boc under all option sets, order() with and without argument, hashing, repr, dictionary and TL-B parse attempts, VmStack/HashMap serialisation of caller-held values) and after EVERY operation requires every pooled cell to equal its creation snapshot (hash, bits, type, child hashes, two serialisations), every untouched slice/builder and every argument of a library call to be unchanged, order() to list exactly the distinct cells, and repeated observations to be identical and independent of earlier calls.',
          'Snapshots are taken with the library itself (the property is about change, not about correctness of the values - that is C01-C05). Caller-side mutation of cell.bits/cell.refs or of the containers passed to a constructor is not asserted.', '§6 C08'),
 })
+CHECKS.update({
+ 'C16': ('enumeration of every constructor alternative x optional-field/flag combination + Hypothesis values over declarative TL-B tables transcribed from block.tlb (independent interpreter reftlb); oracle: field-by-field comparison of the parsed object + sentinel-tail consumption; bundled main-net block decoded independently',
+         'For 51 top-level types (transactions with all 7 descriptions and every phase variant, accounts, shard accounts, 9 InMsg / 10 OutMsg constructors, both envelopes, intermediate addresses, block header with all 16 flag combinations, value flows v1/v2, shard descriptors old/new with every FutureSplitMerge, validator sets #11/#12, validator descriptors, catchain configs, and as extended coverage McStateExtra, McBlockExtra, BlockExtra, ShardStateUnsplit, Block) values generated with a bias to top-bit-set integers are encoded by the reference interpreter, followed by a sentinel tail of extra bits and references, and parsed by the library: every schema field must be readable with the encoded value (same Python int - unsigned stays unsigned) and exactly the tail must remain. The real main-net block of tests/test_cell.py is decoded by the reference and compared component by component with Block.deserialize.',
+         'Trusts harness/ref/reftlb.py and the tables tlb_tx.py / tlb_block.py / tlb_msg.py (about 115 hand-assembled bit strings pinned at import; constructors newer than the bundled block.tlb follow the class docstrings). type_ labels, addr_var addresses, raw tuple/dict wrappers (content only) are not asserted.', '§6 C16'),
+})
 NOT_YET = {}
 
 def main():
